@@ -4,6 +4,8 @@ SPEC = {
     "lean_modules": ["PallasVerif.Props.C21"],
     "required_theorems": ["reassembly_network1", "reassembly_network2", "recvFullMsg_spec", "drain_spec", "unsupported_channel",
                           "good_keepalive", "reassembly_network1_keepalive", "reassembly_network2_keepalive",
+                          "good_blockfetch", "reassembly_network1_blockfetch", "reassembly_network2_blockfetch",
+                          "good_chainsync", "reassembly_network1_chainsync", "reassembly_network2_chainsync",
                           "good_lenCodec", "reassembly_network1_lenCodec"],
     "streams": [{"name": "reasm", "quick": 400, "thorough": 12000, "timeout": 3000}],
     "rule": "a case = one random sequence of 1..8 real protocol messages of one mini-protocol (network1: handshake n2n/n2c, chainsync "
@@ -13,9 +15,9 @@ SPEC = {
             "under different splits: every split point (streams <= 64 bytes: all 2-way splits over the ops of successive cases), 1-byte "
             "segments, random split sets, empty chunks, one chunk; n1 = network1 ChannelBuffer::recv_full_msg behind a real plexer pair, "
             "n2 = network2 read_full_msgs (random direction bit, other channels interleaved). 1 in 8 ops is malformed (an ill-formed byte "
-            "0xff / 0x1c injected at a message boundary, or the stream truncated). keep-alive cases additionally carry kenc/kdec ops "
-            "(the keep-alive codec model against the real decoders of both stacks on valid, truncated, wider-head, wrong-type and "
-            "random bytes). distinct = sha1 of op text; non-trivial = the case "
+            "0xff / 0x1c injected at a message boundary, or the stream truncated). keep-alive, block-fetch and chain-sync-header cases additionally carry kenc/kdec, bfenc/bfdec and csenc/csdec "
+            "ops (the codec models against the real decoders of both stacks on valid, truncated, extended, every head width, "
+            "indefinite strings, other tags, wrong types and random bytes). distinct = sha1 of op text; non-trivial = the case "
             "replays a stream of >= 2 messages under >= 2 different splits of which one cuts inside a message",
     "trusted_base": [
         "Model/Reassembly.lean is a hand transcription of try_decode_message / recv_full_msg (network1) and try_decode_msg / "
@@ -27,8 +29,10 @@ SPEC = {
     ],
     "assumptions": [
         "Good dec enc (round trip + no look-ahead, proper prefix => end-of-input, non-empty encodings, empty buffer => end-of-input) "
-        "is a hypothesis of the generic theorems; it is proved for the keep-alive codec of both stacks (good_keepalive, over a model "
-        "of minicbor's array()/u16() tied by the kdec ops); for the other pallas message decoders it is NOT proved here (C22's "
+        "is a hypothesis of the generic theorems; it is proved for the keep-alive, block-fetch and node-to-node chain-sync codecs of both stacks "
+        "(good_keepalive, good_blockfetch, good_chainsync, over a model of minicbor's array()/u8()/u16()/u64()/tag()/bytes()/Vec "
+        "decoding tied by the kdec/bfdec/csdec ops); for the other "
+        "pallas message decoders it is NOT proved here (C22's "
         "schema layer) and only sampled by replaying real messages at every split",
         "chunks reach recv_full_msg in order, exactly once (C20)",
     ],
